@@ -150,6 +150,17 @@ def hashByAlgM (data : Bytes) (alg : Option Cbor) : M Bytes := do
 
 def cborOfInt (i : Int) : Cbor := if i ≥ 0 then .uint i.toNat else .nint (-1 - i).toNat
 
+/-- the COSE_Key a conformant authenticator emits (canonical member order), used by the
+round-trip theorems of C09/C08; tied to `cbor2.dumps` by the C09 correspondence check -/
+def encodeEc2 (alg : Int) (crv : Nat) (x y : Bytes) : Bytes :=
+  Cbor.enc (.map [(.uint 1, .uint 2), (.uint 3, cborOfInt alg), (.nint 0, .uint crv), (.nint 1, .bytes x), (.nint 2, .bytes y)])
+
+def encodeRsa (alg : Int) (n e : Bytes) : Bytes :=
+  Cbor.enc (.map [(.uint 1, .uint 3), (.uint 3, cborOfInt alg), (.nint 0, .bytes n), (.nint 1, .bytes e)])
+
+def encodeOkp (x : Bytes) : Bytes :=
+  Cbor.enc (.map [(.uint 1, .uint 1), (.uint 3, .nint 7), (.nint 0, .uint 6), (.nint 1, .bytes x)])
+
 def textIs (v : Option Cbor) (s : String) : Bool :=
   match v with
   | some (.text t) => t == utf8 s
